@@ -242,8 +242,8 @@ func (runInfo *runInfoStruct) callExpr() {
 	// This will probably panic for some functions and/or calls that are variadic
 	if !isRunVMFunction {
 		for i, expr := range callExpr.SubExprs {
-			if addrExpr, ok := expr.(*ast.AddrExpr); ok {
-				if identExpr, ok := addrExpr.Expr.(*ast.IdentExpr); ok {
+			if addrExpr, ok := unparen(expr).(*ast.AddrExpr); ok {
+				if identExpr, ok := unparen(addrExpr.Expr).(*ast.IdentExpr); ok {
 					runInfo.rv = args[i].Elem()
 					runInfo.expr = identExpr
 					runInfo.invokeLetExpr()
@@ -688,4 +688,15 @@ func processCallReturnValues(rvs []reflect.Value, isRunVMFunction bool, convertT
 	}
 	// convert to error
 	return nilValue, rvError.Interface().(error)
+}
+
+// unparen returns the expression inside any number of parentheses.
+func unparen(expr ast.Expr) ast.Expr {
+	for {
+		paren, ok := expr.(*ast.ParenExpr)
+		if !ok {
+			return expr
+		}
+		expr = paren.SubExpr
+	}
 }
